@@ -160,7 +160,7 @@ def search(acc: Acc, tier, shard, nshards):
         ch = model.Ch(data.draw)
         quote = ch.choice(['"', "'"])
         st_ = {}
-        doc = model.Gen(ch, profs[quote], st_).document()
+        doc = model.any_document(model.Gen(ch, profs[quote], st_))
         text = render.render(doc, render.Surface(ch, stats=st_)).text
         counter["i"] += 1
         s = model.stats_of(doc)
